@@ -387,6 +387,32 @@ def stream_search(scratch, depth):
                     expq = [None if sym.startswith("g") else basic_state(IA.BasicReadAssignment(alphabet[sym])) for sym in hist]
                     if gotq != expq:
                         bad.append((hist, "quick loader stream differs"))
+                    # the block loaders the pipeline stages use: every gene-info record opens a block, the block holds the
+                    # assignments that follow it in the stream (a block may be empty)
+                    from src.dataset_processor import ReadAssignmentLoader, BasicReadAssignmentLoader
+                    blocks = []
+                    for sym in hist:
+                        if sym.startswith("g"):
+                            blocks.append((gene_info_state(alphabet[sym]), []))
+                        else:
+                            blocks[-1][1].append(ra_state(alphabet[sym]))
+                    bl = ReadAssignmentLoader(path, db, None, None)
+                    gotb = []
+                    while bl.has_next():
+                        gi, storage = bl.get_next()
+                        gotb.append((gene_info_state(gi), [ra_state(x) for x in storage]))
+                        if any(x.gene_info is not gi for x in storage):
+                            bad.append((hist, "block loader: an assignment of the block refers to another gene info than the block's"))
+                    if gotb != blocks:
+                        bad.append((hist, "block loader returns blocks %s, the stream holds %s" %
+                                    ([(b[0][:3], len(b[1])) for b in gotb], [(b[0][:3], len(b[1])) for b in blocks])))
+                    qb = BasicReadAssignmentLoader(path)
+                    gotqb = []
+                    while qb.has_next():
+                        for x in qb.get_next():
+                            gotqb.append(basic_state(x))
+                    if gotqb != [x for x in expq if x is not None]:
+                        bad.append((hist, "basic block loader stream differs"))
                 except Exception as e:  # noqa
                     bad.append((hist, "loader raised " + repr(e)))
                 if len(samples) < 3 and len(hist) == depth:
